@@ -28,14 +28,17 @@ Clause ids (`what`)
                                       no_nonfinite, same_hits, same_holds, same_keysounds,
                                       same_timing_points, same_svs, same_metadata
   <origin>.write_again.<aspect>       the SAME chart object written a second time (aspects as for write)
+  <origin>.write_after_edit.<aspect>  the SAME chart object changed through public operations after the first write (case field
+                                      `edit`), then written again: the document denotes the chart as it is NOW
   <origin>.read_after_write.<aspect>  aspect: accepts, hits, holds, keysounds, timing_points, svs, metadata
   write_after_read.<aspect>[<feature>]
 Converted charts are clauses of their own, so the native clauses are exercised independently.
 
 Dimensions that do NOT enter the clause id (they are fields of the case): `via` - the entry point the text goes
 through (read(str), read(list of lines) in three splittings and read twice from the same list object,
-read(..., safe=False), read through an instance, read_file(str path) and read_file(Path)); `wvia` - write() or
-write_file(); the text FORM (LF, CRLF, trailing blank lines, no final newline, YAML comment lines); for
+read(..., safe=False), read through an instance, read_file(str path) and read_file(Path), read_file of a path that held
+another document - read from it - before, read(str) after an earlier reading of the same text was edited, also in place); `wvia` - write() or write_file(), the latter also onto a path that already holds
+a longer / shorter text, another chart's export or an earlier export of the same chart; the text FORM (LF, CRLF, trailing blank lines, no final newline, YAML comment lines); for
 in-memory charts `numeric` (python floats / all-int columns / numpy scalars) and `post` (public list operations
 applied before writing - sorted, reversed, slices, mask filters - that leave permuted / reversed / offset / gappy
 row labels on each of the four lists).
@@ -406,13 +409,15 @@ FEATURES = [
     # added with the generator audit (empty / one-element / many, ties and boundaries, every omitted key at every position, numerics, extras)
     "omit_multiplier_all", "omit_bpm_all", "single_records", "one_hit_only", "one_hold_only", "many_records", "zero_length_hold", "end_time_zero",
     "ties", "long_decimals", "half_ms_times", "extra_top_keys", "extra_record_keys_all", "extra_record_keys_some",
+    # the ends of the value ranges: times around +-2^31 ms, tempo 0.001 .. 1e6, multipliers +-1000 / 0.0001, 32-bit extremes in the integer keys
+    "extreme_values",
     "mixed",
 ]
 # features that never enter a "mixed" document: a class that fails on the unchanged tree must stay in clauses of its own
 NOT_IN_MIXED = {"extra_top_keys", "extra_record_keys_all", "extra_record_keys_some"}
 # documents in which every key is present: the charts read from them are the "native, read from a document" charts
 SAFE_FOR_NATIVE = {"plain", "lane", "keysounds_nonempty", "empty_hitobjects", "empty_timingpoints", "empty_svs", "all_sections_empty", "hits_only", "holds_only", "meta_hostile", "float_times", "negative_large_times", "flow_records", "key_order",
-                   "single_records", "one_hit_only", "one_hold_only", "many_records", "zero_length_hold", "end_time_zero", "ties", "long_decimals", "half_ms_times"}
+                   "single_records", "one_hit_only", "one_hold_only", "many_records", "zero_length_hold", "end_time_zero", "ties", "long_decimals", "half_ms_times", "extreme_values"}
 
 KS_POOL = [[], [], ["a.wav"], ["a.wav", "b c.ogg"], [{"Sample": 1, "Volume": 50}], [{"Sample": 2, "Volume": 100}, {"Sample": 3, "Volume": 0}]]
 
@@ -489,6 +494,8 @@ def _time(rng, kind):
         return rng.choice([0.5, 1.5, 2.5, -0.5, -1.5, -2.5, 2.999, -2.999, 0.999, -0.001, 1000.5, 1001.5])
     if kind == "long":  # more than 6 significant digits
         return rng.choice([1234567.875, 123456.789, 100000.125, 7654321, 0.015625])
+    if kind == "extreme":
+        return rng.choice([2147483647, -2147483648, 2147483648.5, -2147483649.25, 86400000, 0, 4294967296])
     if kind == "neglarge":
         return rng.choice([-5000, -1, -250.5, 10**9, 10**9 + 0.5, 3600000])
     return rng.choice([0, 1, 100, 250, 1000, 1500, 123456])
@@ -497,6 +504,8 @@ def _time(rng, kind):
 BPM_POOL = [120.0, 177.5, 60, 200, 333.333]
 MULT_POOL = [1.0, 0.5, 2, 1.25, -1.0, 0.0, 10.0]
 BPM_LONG = [123.456789, 99.9999999, 0.123456789, 1000000.5, 174]
+BPM_EXTREME = [0.001, 1, 99999.0, 65535, 1000000]
+MULT_EXTREME = [1000.0, -1000.0, 0.0001, 100, 0.0]
 MULT_LONG = [1.2345678, 0.3333333333, 9.87654321, 0.0001234, 1]
 
 
@@ -513,6 +522,9 @@ def gen_spec(rng, feature, lane=None):
     long_dec = on("long_decimals", 0.15)
     if long_dec and tk == "int":
         tk = "long"
+    extreme = on("extreme_values", 0.06)
+    if extreme:
+        tk = "extreme"
     fractional = tk in ("float", "half", "long")
     n_hits, n_holds = rng.randrange(2, 5), rng.randrange(2, 4)
     single, many = on("single_records", 0.08), on("many_records", 0.04)
@@ -590,6 +602,8 @@ def gen_spec(rng, feature, lane=None):
     rng.shuffle(objs)  # hits and holds interleaved in the document
 
     bpm_pool, mult_pool = (BPM_LONG, MULT_LONG) if long_dec else (BPM_POOL, MULT_POOL)
+    if extreme:
+        bpm_pool, mult_pool = BPM_EXTREME, MULT_EXTREME
     tps = [[["StartTime", _time(rng, tk)], ["Bpm", rng.choice(bpm_pool)]] for _ in range(n_tp)]
     svs = [[["StartTime", _time(rng, tk)], ["Multiplier", rng.choice(mult_pool)]] for _ in range(n_sv)]
     if ties:  # two tempo changes / two SVs at exactly the same time with different values
@@ -636,11 +650,11 @@ def gen_spec(rng, feature, lane=None):
         elif k in TEXT_KEYS:
             v = text()
         elif k in INT_KEYS:
-            v = rng.choice([-1, 0, 12345, 169955])
+            v = rng.choice([2147483647, -2147483648, 0] if extreme else [-1, 0, 12345, 169955])
         elif k in BOOL_KEYS:
             v = rng.random() < 0.5
         elif k in NUM_KEYS:
-            v = rng.choice([1.0, 0.5, 2.5])
+            v = rng.choice([0.0, 100.0, 0.01] if extreme else [1.0, 0.5, 2.5])
         else:
             v = rng.choice([[], [], [{"Name": "Layer 1", "ColorRgb": "255,0,0"}], [{"Path": text(), "UnaffectedByRate": False}]])
         top.append([k, v, style()])
@@ -660,8 +674,10 @@ def gen_spec(rng, feature, lane=None):
 
 
 FORMS = ["crlf", "trailing_blank_lines", "no_final_newline", "comments"]
-READ_VIAS = ["lines_split", "lines_splitlines", "lines_keepends", "unsafe", "instance", "file"]
-WRITE_VIAS = ["write", "write_file", "write_file_path"]
+READ_VIAS = ["lines_split", "lines_splitlines", "lines_keepends", "unsafe", "instance", "file", "file_reused", "after_edited_reading"]
+#: write_file onto a path that already holds a file: a longer / shorter old text, the export of another chart, an earlier export of this chart
+WRITE_VIAS = ["write", "write_file", "write_file_path", "write_file_over_longer", "write_file_over_shorter", "write_file_over_other_chart", "write_file_twice"]
+_OLD_DOC = "Title: 'old export: #1'\nMode: Keys7\nTimingPoints:\n- StartTime: 5\n  Bpm: 99.0\nSliderVelocities:\n- StartTime: 7\n  Multiplier: 3.0\nHitObjects:\n" + "- StartTime: 5\n  Lane: 7\n  KeySounds: []\n- StartTime: 6\n  Lane: 6\n  EndTime: 9\n  KeySounds: []\n"
 
 
 def _apply_form(rng, text, form):
@@ -730,6 +746,34 @@ def _read_via(text, via):
             with open(p, "wb") as fh:
                 fh.write(text.encode("utf-8"))
             return [QuaMap.read_file(p), QuaMap.read_file(pathlib.Path(p))]
+    if via == "after_edited_reading":
+        # read - the chart read is changed through public operations, its list-valued fields in place - read the same text again:
+        # the second reading denotes the document, not the edits
+        first = QuaMap.read(text)
+        try:
+            first.hits.offset += 1000
+            first.holds.column += 1
+            first.bpms.bpm *= 2
+            first.svs = first.svs.append(first.svs[:1])
+            first.title, first.mode = "edited", "Keys7" if first.mode == "Keys4" else "Keys4"
+            for field in (first.tags, first.editor_layers, first.custom_audio_samples, first.sound_effects):
+                if isinstance(field, list):
+                    field.append("edited")
+            for ks in first.hits.keysounds.tolist() + first.holds.keysounds.tolist():
+                if isinstance(ks, list):
+                    ks.append("edited.wav")
+        except Exception:  # (what the list operations do with this chart is not the reader's matter)
+            pass
+        return [QuaMap.read(text)]
+    if via == "file_reused":  # the path held another (longer) document, which was read from it, before it holds this one
+        with tempfile.TemporaryDirectory(prefix="c06_") as d:
+            p = os.path.join(d, "chart.qua")
+            with open(p, "wb") as fh:
+                fh.write((_OLD_DOC + "- StartTime: 5\n  Lane: 1\n" * (len(text) // 20 + 10)).encode("utf-8"))
+            QuaMap.read_file(p)
+            with open(p, "wb") as fh:
+                fh.write(text.encode("utf-8"))
+            return [QuaMap.read_file(p)]
     raise ValueError(via)
 
 
@@ -737,10 +781,23 @@ def _write_via(m, wvia):
     """The document text REAL reamber writes for the chart through write() or write_file()."""
     if wvia == "write":
         return m.write()
-    if wvia in ("write_file", "write_file_path"):
+    if wvia.startswith("write_file"):
         with tempfile.TemporaryDirectory(prefix="c06_") as d:
             p = os.path.join(d, "out 譜面.qua")
-            m.write_file(p if wvia == "write_file" else pathlib.Path(p))
+            # what the path holds before: the file afterwards must denote exactly the chart written last
+            if wvia == "write_file_over_longer":
+                with open(p, "wb") as fh:
+                    fh.write((_OLD_DOC + "- StartTime: 5\n  Lane: 1\n" * 12000).encode("utf-8"))  # ~ 300 kB: longer than any generated chart's document
+            elif wvia == "write_file_over_shorter":
+                with open(p, "wb") as fh:
+                    fh.write(b"Title: x")
+            elif wvia == "write_file_over_other_chart":
+                from reamber.quaver.QuaMap import QuaMap
+
+                QuaMap.read(_OLD_DOC).write_file(p)
+            elif wvia == "write_file_twice":
+                m.write_file(p)
+            m.write_file(pathlib.Path(p) if wvia == "write_file_path" else p)
             with open(p, "rb") as fh:
                 return fh.read().decode("utf-8")
     raise ValueError(wvia)
@@ -799,6 +856,7 @@ def qua_read_vs_denotation(rep):
                  "each section empty on its own; StartTime omitted on one / all records of every kind, KeySounds on some / all, Bpm and Multiplier on one record at any position / on all; "
                  "zero-length holds, a hold ending exactly at 0, two hits / hit on hold head / two timing points / two SVs at exactly the same time with different values; "
                  "times: whole, fractional, x.5 and x.999 on both sides of 0, negative, 1e9, > 6 significant digits (also Bpm / Multiplier); unknown top-level keys, unknown record keys on all / on some records (single-feature documents only); "
+                 "the ends of the value ranges as a feature of its own (times around +-2^31 and 2^32 ms, tempo 0.001 .. 1e6, multipliers +-1000 / 0.0001 / 0, 32-bit extremes in the integer keys, InitialScrollVelocity 0 / 100); "
                  f"strings from a pool of {len(HOSTILE)} YAML-hostile texts (incl. U+00A0 / U+3000 inside and at the ends, full-width punctuation, wave dash, '//', ',', '#', CR LF, YAML 1.1 number / date look-alikes) in plain/single/double quoting; "
                  f"40% of the documents in another text form ({', '.join(FORMS)}) and 40% through another entry point than read(str) ({', '.join(READ_VIAS)}; list inputs are read twice from the same list object, files through a str path and a Path)")
     rep.rule = ("a case is one document text + entry point; non-trivial when it has at least one object or timing record; each document is first read through the oracle and compared with the chart the generator meant (self-check); "
@@ -831,11 +889,14 @@ def _replay_read(case, what):
 # ----------------------------------------------------------------------------- in-memory charts
 
 _T_NATIVE = [0, 100, 100.7, 250.25, 999.999, -50.5, -1, 1000000000.5, 3600000, 0.4, -0.4,
-             0.5, 1.5, 2.5, -0.5, -1.5, 2.999, 1234567.875]          # x.5 on both sides of 0, x.999, > 6 significant digits
-_T_INT = [0, 1, 100, 250, 999, -50, -1, 1000000000, 3600000]         # all-int charts: int64 columns
+             0.5, 1.5, 2.5, -0.5, -1.5, 2.999, 1234567.875,          # x.5 on both sides of 0, x.999, > 6 significant digits
+             2147483648.5, -2147483649.25]                            # beyond the 32-bit range on both sides
+_T_INT = [0, 1, 100, 250, 999, -50, -1, 1000000000, 3600000, 2147483647, -2147483648, 4294967296]  # all-int charts: int64 columns
 _LEN_NATIVE = [0.2, 1, 50.5, 500, 99999.9, 0, 0.5, 0.999]            # incl. zero-length holds (end == start)
 _LEN_INT = [0, 1, 50, 500, 100000]
 POST_OPS = ["none", "sorted", "sorted_desc", "reversed", "drop_first", "keep_odd", "drop_second"]
+#: call - legitimate change - call again: after the first write the SAME chart object is changed through public operations, then written again
+EDITS = ["shift_props", "shift_stack", "rate", "columns_props", "columns_stack", "append", "new_lists", "values", "meta"]
 
 
 def _gen_objects(rng, keys, n_hits, n_holds, with_ks, ints=False):
@@ -860,9 +921,10 @@ def gen_chart_case(rng, origin):
     hits, holds = _gen_objects(rng, keys, n_hits, n_holds, with_ks=(origin == "lists"), ints=ints)
     if origin == "bms" and (hits or holds):  # key count of a BMS chart = highest column + 1
         (hits or holds)[0][1] = keys - 1
-    bpms = [[rng.choice([0, -100, 1000, 2500] if ints else [0, -100.5, 1000, 2500.75]), rng.choice([120, 60, 200] if ints else [120, 177.5, 60.0, 333.333, 123.456789])]
+    wide = origin == "lists" and not ints and rng.random() < 0.2  # native charts: tempo / multiplier values from the ends of the range
+    bpms = [[rng.choice([0, -100, 1000, 2500] if ints else [0, -100.5, 1000, 2500.75]), rng.choice([120, 60, 200] if ints else BPM_EXTREME if wide else [120, 177.5, 60.0, 333.333, 123.456789])]
             for _ in range(rng.randrange(0 if origin == "lists" else 1, 4))]
-    svs = [[rng.choice(_T_INT if ints else _T_NATIVE), rng.choice([1, 2, -1, 0, 10] if ints else [1.0, 0.5, 2.0, 1.25, -1.0, 10.0, 0.0, 1.2345678, 0.3333333333])]
+    svs = [[rng.choice(_T_INT if ints else _T_NATIVE), rng.choice([1, 2, -1, 0, 10] if ints else MULT_EXTREME if wide else [1.0, 0.5, 2.0, 1.25, -1.0, 10.0, 0.0, 1.2345678, 0.3333333333])]
            for _ in range(rng.randrange(0, 4))] if origin in ("lists", "osu") else []
     hostile = rng.random() < 0.7
     pool = HOSTILE if hostile else BENIGN
@@ -876,8 +938,10 @@ def gen_chart_case(rng, origin):
         case["numeric"] = numeric
     if rng.random() < 0.4:  # public list operations before writing: row labels permuted / reversed / offset / gappy, per list kind
         case["post"] = {k: rng.choice(POST_OPS) for k in ("hits", "holds", "bpms", "svs")}
-    if rng.random() < 0.3:
+    if rng.random() < 0.35:
         case["wvia"] = rng.choice(WRITE_VIAS[1:])
+    if rng.random() < 0.5:
+        case["edit"] = rng.choice(EDITS)
     if rng.random() < 0.3:  # entry point of the read-after-write (not lines_keepends: a written document may hold multi-line scalars, in which doubled line ends are another text)
         case["rvia"] = rng.choice([v for v in READ_VIAS if v != "lines_keepends"])
     return case
@@ -1084,6 +1148,77 @@ def _build_charts(case):
     raise ValueError(o)
 
 
+class _EditStepError(Exception):
+    """the public list / stack / rate operation of an edit raised: not an observation of QuaMap.write"""
+
+
+def _apply_edit(m, edit, chart):
+    """One legitimate public change of the chart object `m`, whose chart before was `chart` (chart_of).  -> (the chart object to
+    write next, the chart it must denote now - computed from `chart` and the DESCRIPTION of the edit, not from the object - or
+    None for rate(), where the new chart is read off the public attributes of the chart rate() returns)."""
+    from reamber.quaver.QuaHit import QuaHit
+    from reamber.quaver.QuaHold import QuaHold
+    from reamber.quaver.QuaBpm import QuaBpm
+    from reamber.quaver.QuaSv import QuaSv
+    from reamber.quaver.lists.QuaBpmList import QuaBpmList
+    from reamber.quaver.lists.QuaSvList import QuaSvList
+    from reamber.quaver.lists.notes.QuaHitList import QuaHitList
+    from reamber.quaver.lists.notes.QuaHoldList import QuaHoldList
+
+    want = dict(hits=list(chart["hits"]), holds=list(chart["holds"]), bpms=list(chart["bpms"]), svs=list(chart["svs"]), meta=dict(chart["meta"]))
+    try:
+        if edit in ("shift_props", "shift_stack"):
+            if edit == "shift_props":
+                m.hits.offset += 1000
+                m.holds.offset += 1000
+                m.bpms.offset += 1000
+                m.svs.offset += 1000
+            else:
+                s = m.stack()
+                s.offset += 1000
+            want.update(hits=[(c, t + 1000, k) for c, t, k in chart["hits"]], holds=[(c, t + 1000, d, k) for c, t, d, k in chart["holds"]],
+                        bpms=[(t + 1000, b) for t, b in chart["bpms"]], svs=[(t + 1000, x) for t, x in chart["svs"]])
+        elif edit in ("columns_props", "columns_stack"):
+            if edit == "columns_props" or not (chart["hits"] or chart["holds"]):
+                m.hits.column += 1
+                m.holds.column += 1
+            else:
+                s = m.stack()
+                s.column += 1
+            want.update(hits=[(c + 1, t, k) for c, t, k in chart["hits"]], holds=[(c + 1, t, d, k) for c, t, d, k in chart["holds"]])
+        elif edit == "values":  # (the library's own page on Quaver shows this edit)
+            m.svs.multiplier *= 1.5
+            m.bpms.bpm *= 1.5
+            want.update(bpms=[(t, b * 1.5) for t, b in chart["bpms"]], svs=[(t, x * 1.5) for t, x in chart["svs"]])
+        elif edit == "append":  # append gives a new list, which is assigned
+            m.hits = m.hits.append(QuaHit(offset=777.25, column=0, keysounds=[]))
+            m.holds = m.holds.append(QuaHold(offset=-12.5, column=1, length=40.25, keysounds=["b c.ogg"]))
+            m.bpms = m.bpms.append(QuaBpm(offset=5000.5, bpm=222.5))
+            m.svs = m.svs.append(QuaSv(offset=-3.5, multiplier=0.75))
+            want.update(hits=want["hits"] + [(0, 777.25, [])], holds=want["holds"] + [(1, -12.5, 40.25, ["b c.ogg"])], bpms=want["bpms"] + [(5000.5, 222.5)], svs=want["svs"] + [(-3.5, 0.75)])
+        elif edit == "new_lists":
+            m.hits = QuaHitList([QuaHit(offset=10.5, column=2, keysounds=[]), QuaHit(offset=2000, column=0, keysounds=["a.wav"])])
+            m.holds = QuaHoldList([QuaHold(offset=300, column=1, length=0.5, keysounds=[])])
+            m.bpms = QuaBpmList([QuaBpm(offset=-20, bpm=90.5)])
+            m.svs = QuaSvList([])
+            want.update(hits=[(2, 10.5, []), (0, 2000.0, ["a.wav"])], holds=[(1, 300.0, 0.5, [])], bpms=[(-20.0, 90.5)], svs=[])
+        elif edit == "meta":
+            m.title, m.tags, m.song_preview_time = "changed: title #2", ["x", "y:z"], 4321
+            m.has_scratch_key = not bool(chart["meta"].get("HasScratchKey"))
+            m.mode = "Keys4" if chart["meta"].get("Mode") == "Keys7" else "Keys7"
+            want["meta"].update(Title="changed: title #2", Tags="x y:z", SongPreviewTime=4321, HasScratchKey=not bool(chart["meta"].get("HasScratchKey")),
+                                Mode="Keys4" if chart["meta"].get("Mode") == "Keys7" else "Keys7")
+        elif edit == "rate":
+            return m.rate(2.0), None
+        else:
+            raise ValueError(edit)
+    except ValueError:
+        raise
+    except Exception as ex:
+        raise _EditStepError(_exc(ex)) from ex
+    return m, want
+
+
 def _origin_class(case):
     o = case["origin"]
     return "native" if o in ("lists", "doc", "qua") else f"converted[{o}]"
@@ -1107,7 +1242,7 @@ def run_write_case(case):
             charts = build_charts(case)
     except Exception as ex:  # the SOURCE could not be built / read / converted: not an observation of QuaMap.write
         return [], dict(built=False, skipped=_exc(ex), objects=0)
-    out, nobj, isv = [], 0, 0
+    out, nobj, isv, edits = [], 0, 0, {}
     for i, m in enumerate(charts):
         tag = f" (chart {i})" if len(charts) > 1 else ""
         try:
@@ -1164,13 +1299,49 @@ def run_write_case(case):
             continue
         for a, d in compare_charts(chart, back, 1.0):
             out.append((f"{oc}.read_after_write.{a}", d + wtag))
+        # call - legitimate change - call again: the document written AFTER a public edit denotes the chart as it is now
+        if case.get("edit"):
+            etag = f" (written again after the edit {case['edit']})" + tag
+            try:
+                with _quiet():
+                    m3, want = _apply_edit(m, case["edit"], chart)
+                    now = chart_of(m3)
+            except _EditStepError as ex:
+                edits["edit_step_raised"] = edits.get("edit_step_raised", 0) + 1
+                continue
+            if want is None:
+                want = now
+            elif compare_charts(want, now, 1e-9) or compare_charts(now, want, 1e-9):
+                edits["edit_result_not_as_described"] = edits.get("edit_result_not_as_described", 0) + 1  # a matter of the list / stack operations, not of the writer
+                continue
+            if not _finite_chart(want):
+                continue
+            edits["judged"] = edits.get("judged", 0) + 1
+            try:
+                with _quiet():
+                    text3 = m3.write()
+            except Exception as ex:
+                out.append((f"{oc}.write_after_edit.succeeds", _exc(ex) + etag))
+                continue
+            try:
+                raw3 = _yaml_load(text3)
+                if not isinstance(raw3, dict):
+                    raise DenError(f"top level is {type(raw3).__name__}")
+                den3 = den_qua(raw3)
+            except Exception as ex:
+                out.append((f"{oc}.write_after_edit.loads_as_mapping", _exc(ex) + etag + "\n" + text3[:400]))
+                continue
+            for a, d in wf_qua(raw3):
+                out.append((f"{oc}.write_after_edit.{a}", d + etag))
+            for a, d in compare_charts(want, den3, 1.0):
+                out.append((f"{oc}.write_after_edit.same_{a}", d + etag))
     # one detail per clause is enough
     seen, uniq = set(), []
     for w, d in out:
         if w not in seen:
             seen.add(w)
             uniq.append((w, d))
-    return uniq, dict(built=True, skipped=None, objects=nobj, isv_not_number=isv)
+    return uniq, dict(built=True, skipped=None, objects=nobj, isv_not_number=isv, edits=edits)
 
 
 @bounded("C06", note="in-memory Quaver charts, native (read from generated documents, built from item lists, .qua fixtures) AND produced by OsuToQua / SMToQua / BMSToQua / O2JToQua -> REAL QuaMap.write -> den_qua: only the format's keys and value types, no non-finite number, same chart < 1 ms; then REAL QuaMap.read of the written text gives the chart back")
@@ -1180,15 +1351,20 @@ def qua_write_vs_denotation(rep):
     lim, nfiles = rep.n(120, 0), rep.n(1, 99)
     rep.bound = (f"per origin {N} generated charts (origins: Quaver item lists, generated documents read back, osu, sm, bms, o2j; keys 4/7; 0..4 hits, 0..3 holds incl. hits only / holds only / empty, 1 in 7 with 8..24 hits and 5..11 holds; 0..3 timing points, 0..3 SVs; times from a grid with fractional, x.5 / x.999 on both sides of 0, negative, 1e9 and > 6-digit values; hold lengths incl. 0; "
                  "native item lists with python numbers, all-int columns or numpy scalars; 40% of the charts after public list operations on each of hits / holds / timing points / SVs (sorted, sorted descending, reversed, first row dropped, mask filters: permuted / reversed / offset / gappy row labels); "
-                 f"30% written through write_file (str path / Path) instead of write(), every chart written a second time, 30% read back through another entry point than read(str); metadata from the YAML-hostile pool) + fixtures under rsc/maps ({'first ' + str(lim) + ' objects of the smallest file' if lim else 'all files, whole charts'} per format)")
-    rep.rule = "a case is one source chart description (rebuilt through the real constructors / converters, then the case's list operations); the chart compared is the one handed to the writer, snapshot before the first write; non-trivial when the written chart has at least one object"
+                 f"35% written through write_file instead of write() (str path / Path; onto a path that holds a longer / a shorter old text, the export of another chart, an earlier export of the same chart), every chart written a second time, "
+                 f"50% changed after the first write through public operations and written a THIRD time ({', '.join(EDITS)}: offsets +1000 through the list properties / the stack, rate(2), columns +1 through the properties / the stack, "
+                 "an item appended to each list and the new lists assigned, four new lists assigned, bpm and multiplier *= 1.5, title / tags / preview time / scratch key / mode assigned), "
+                 "native item lists in 1 of 5 charts with tempo 0.001 .. 1e6 and multipliers +-1000 / 0.0001, times beyond +-2^31 ms; "
+                 f"30% read back through another entry point than read(str) (incl. a path that held another document before); metadata from the YAML-hostile pool) + fixtures under rsc/maps ({'first ' + str(lim) + ' objects of the smallest file' if lim else 'all files, whole charts'} per format)")
+    rep.rule = ("a case is one source chart description (rebuilt through the real constructors / converters, then the case's list operations); the chart compared is the one handed to the writer, snapshot before the first write; after an edit, the chart computed from that snapshot and the DESCRIPTION of the edit (for rate(): the public attributes of the chart it returns) - "
+                "clauses <origin>.write_after_edit.*; an edit whose own step raises or does not do what its description says is counted, not judged; non-trivial when the written chart has at least one object")
     plan = []
     for o in ("qua", "osu", "sm", "bms", "o2j"):
         plan += fixture_cases(o, lim)
     for i in range(N):
         for o in ("lists", "doc", "osu", "sm", "bms", "o2j"):
             plan.append(o)
-    skipped, per, fx_done, isv = {}, {}, {}, 0
+    skipped, per, fx_done, isv, edit_counts = {}, {}, {}, 0, {}
     safe = sorted(SAFE_FOR_NATIVE)
     for p in plan:
         if rep.out_of_time(45, 330):
@@ -1202,9 +1378,13 @@ def qua_write_vs_denotation(rep):
             case = dict(c, origin="doc")
             if rng.random() < 0.4:
                 case["post"] = {k: rng.choice(POST_OPS) for k in ("hits", "holds", "bpms", "svs")}
+            if rng.random() < 0.5:
+                case["edit"] = rng.choice(EDITS)
         else:
             case = gen_chart_case(rng, p)
         failed, info = run_write_case(case)
+        for k, v in (info.get("edits") or {}).items():
+            edit_counts[k] = edit_counts.get(k, 0) + v
         key = _origin_class(case) + (":fixture" if "file" in case else "")
         if not info["built"]:
             skipped[case.get("file", case["origin"])] = info["skipped"]
@@ -1217,6 +1397,7 @@ def qua_write_vs_denotation(rep):
         for what, d in failed:
             rep.fail(what, case, d)
     rep.extra["charts_per_origin"] = per
+    rep.extra["charts written again after a public edit (judged) / edit step raised or did not do what its description says (not judged: not an observation of the writer)"] = edit_counts
     rep.extra["not asserted - written documents whose InitialScrollVelocity is not a number (the never-set field default '' is written as a string; A5 only calls the key a scalar)"] = isv
     rep.extra["sources_not_buildable (not an observation of C06)"] = skipped
 
